@@ -401,16 +401,83 @@ func checkMain(args []string) {
 		}
 		var ro *replayOut
 		var cv *Violation
+		hashOK := true
 		for a := 0; a < attempts && cv == nil; a++ {
 			var err error
 			ro, err = replayFresh(self, tmp, 10*time.Minute)
 			if err != nil {
 				die2("confirming a violation: %v", err)
 			}
-			if fv.Violation.Class != "crash" && ro.EventHash != fmt.Sprintf("%016x", fv.EventHash) {
-				die2("nondeterministic harness: event log of run %d differs between worker (%016x) and fresh replay (%s) (see %s)", fv.Idx, fv.EventHash, ro.EventHash, tmp)
+			hashOK = fv.Violation.Class == "crash" || ro.EventHash == fmt.Sprintf("%016x", fv.EventHash)
+			if !hashOK {
+				break
 			}
 			cv = hasSig(ro.Violations, s)
+		}
+		if (cv == nil || !hashOK) && len(fv.History) > 0 && fv.Violation.Class != "crash" {
+			// not reproduced from the scenario alone: the violation may depend on process-wide state that earlier runs
+			// of the same worker process left behind (state the harness cannot reset because it does not know it).
+			// Replay with those runs as prelude, then shrink the prelude.
+			withPre := sc.Clone()
+			withPre.PreludeRef = &PreludeRef{Seed: seed, Tier: *tier, Idx: fv.History}
+			try := func(c *Scenario) (*replayOut, *Violation) {
+				if writeScenario(tmp, c) != nil {
+					return nil, nil
+				}
+				for a := 0; a < attempts; a++ {
+					r, err := replayFresh(self, tmp, 20*time.Minute)
+					if err != nil {
+						return nil, nil
+					}
+					if v := hasSig(r.Violations, s); v != nil {
+						return r, v
+					}
+				}
+				return nil, nil
+			}
+			if r, v := try(withPre); v != nil && r.EventHash == fmt.Sprintf("%016x", fv.EventHash) {
+				// ddmin over the prelude indices
+				idxs := withPre.PreludeRef.Idx
+				deadline := time.Now().Add(120 * time.Second)
+				for chunk := len(idxs) / 2; chunk >= 1 && time.Now().Before(deadline); {
+					removed := false
+					for start := 0; start < len(idxs) && time.Now().Before(deadline); {
+						end := start + chunk
+						if end > len(idxs) {
+							end = len(idxs)
+						}
+						c := withPre.Clone()
+						c.PreludeRef.Idx = append(append([]int{}, idxs[:start]...), idxs[end:]...)
+						if _, v2 := try(c); v2 != nil {
+							idxs = c.PreludeRef.Idx
+							withPre = c
+							removed = true
+						} else {
+							start = end
+						}
+					}
+					if !removed || chunk == 1 {
+						chunk /= 2
+					}
+				}
+				genTier = *tier
+				embedPrelude(p, withPre)
+				sc = withPre
+				if err := writeScenario(tmp, sc); err != nil {
+					die2("%v", err)
+				}
+				r2, v2 := try(sc)
+				if v2 == nil {
+					die2("nondeterministic harness: violation %s of run %d reproduced with its prelude by index but not with the embedded prelude (see %s)", s, fv.Idx, tmp)
+				}
+				ro, cv, hashOK = r2, v2, true
+				fv.EventHash = 0
+			} else {
+				_ = writeScenario(tmp, sc)
+			}
+		}
+		if !hashOK {
+			die2("nondeterministic harness: event log of run %d differs between worker (%016x) and fresh replay (%s), also with the worker's earlier runs as prelude (see %s)", fv.Idx, fv.EventHash, ro.EventHash, tmp)
 		}
 		unconfirmed := false
 		if cv == nil {
